@@ -434,6 +434,21 @@ def prefilters(P, R):
 def segment_point(P, R):
     f = P.func(IX, 'segment_intersects_point')
     p = f.params   # ax0, ay0, ax1, ay1, bx, by
+    # C02.e (pairing): the end points (ax0, ay0) and (ax1, ay1) stay paired on their way into the cross product: re-binding an end-point coordinate (a swap
+    # "so that x1 >= x0") must swap the other coordinate of the two end points in the same statement -- sorting the axes independently mirrors every segment
+    # of negative slope
+    ends = set(p[:4])
+    arith_uses = {n_.id for b_ in ast.walk(f.node) if isinstance(b_, ast.BinOp) and isinstance(b_.op, (ast.Sub, ast.Mult, ast.Add)) for n_ in ast.walk(b_) if isinstance(n_, ast.Name)} & ends
+    for a_ in walk_own(f.node):
+        if isinstance(a_, ast.Assign):
+            tg = {n_.id for t_ in a_.targets for n_ in ast.walk(t_) if isinstance(n_, ast.Name) and isinstance(n_.ctx, ast.Store)} & ends
+            if not tg:
+                continue
+            xs_, ys_ = tg & {p[0], p[2]}, tg & {p[1], p[3]}
+            joint = len(xs_) == 2 and len(ys_) == 2
+            R.check(joint or not arith_uses, 'C02.e', f, a_, 'end points are re-ordered as whole points (both coordinates together) before the cross product',
+                    f'`{norm(a_)}` re-orders the segment on one axis only, and the re-ordered coordinates feed the cross product: for a segment whose x and y run in opposite directions the '
+                    'collinearity test is made against the mirrored segment (points on it are missed, points on the other diagonal accepted)', construct='end points stay paired')
     bad = []
     cases = ordeval.orderings(3)
     n = 0
